@@ -141,7 +141,7 @@ def gen_config(rng, want=None):
     return cfg
 
 
-def build_model(cfg, tau=None, limit_sigma=None, gamma_wrap=None):
+def build_model(cfg, tau=None, limit_sigma=None, gamma_wrap=None, lib=None):
     """Construct the model from its constructor kwargs; `tau`/`limit_sigma` override (encoded
     values are NOT expected here: pass decoded python values)."""
     kw = {}
@@ -161,9 +161,9 @@ def build_model(cfg, tau=None, limit_sigma=None, gamma_wrap=None):
         if "gamma" in kw:
             kw["gamma"] = gamma_wrap(kw["gamma"])
         else:
-            m0 = model_class(cfg["model"])(**kw)
+            m0 = model_class(cfg["model"], lib)(**kw)
             kw["gamma"] = gamma_wrap(m0.gamma)
-    return model_class(cfg["model"])(**kw)
+    return model_class(cfg["model"], lib)(**kw)
 
 
 class Domain:
